@@ -50,8 +50,64 @@ def emit_split(R, contract, loops):
                  "fidelity": X.fidelity(p.src_body, b, extra_vocab=["T", "result", "x", "ix", "ir", "begin", "copy_n", "advance", "size", "sbegin", "send", "return"], slack=6),
                  "drops": ["the int and other instantiations of the template (double only)"]}
 
+def emit_split_wrappers(R):
+    """Data2D<T>::splitData and StorageSet::splitValues (tsgIndexSets.hpp) on ghost records."""
+    HPP = "SparseGrids/tsgIndexSets.hpp"
+    text = X.strip_comments(X.read_source(HPP))
+    (p,) = X.cut(HPP, r'Data2D<T>\s+splitData\s*\(\s*int\s+ibegin\s*,\s*int\s+iend\s*\)\s*const', text)
+    b = p.body
+    b = R.sub("R12g-empty-object", r'return\s+Data2D<T>\(\)\s*;', 'return d2_empty();', b)
+    b = R.sub("R12g-local-object", r'Data2D<T>\s+result\(\s*([^,;]+),\s*0\s*\)\s*;', r'D2 result = d2_make(\1, 0);', b)
+    b = R.sub("R12g-split-call", r'spltVector2D\(\s*vec\s*,\s*stride\s*,\s*ibegin\s*,\s*iend\s*\)', 'gm_split(self->vec, self->stride, ibegin, iend)', b)
+    for mname in ("stride", "num_strips"):
+        b = R.sub("R10-member", r'(?<![\w.>])%s\b' % mname, 'self->' + mname, b)
+    X.check_leftover(b, "Data2D::splitData")
+    t1 = '#line %d "%s"\nD2 Data2D_splitData(const D2 *self, int ibegin, int iend)%s\n' % (p.line, X.REPO + "/" + p.rel, b)
+    (q,) = X.cut(HPP, r'StorageSet\s+splitValues\s*\(\s*int\s+ibegin\s*,\s*int\s+iend\s*\)\s*const', text)
+    c = q.body
+    c = R.sub("R12g-brace-return", r'return\s*\{\s*([^,]+),\s*([^,]+),\s*spltVector2D\(\s*values\s*,\s*num_outputs\s*,\s*ibegin\s*,\s*iend\s*\)\s*\}\s*;',
+              r'return ss_make(\1, \2, gm_split(self->values, self->num_outputs, ibegin, iend));', c)
+    for mname in ("num_values",):
+        c = R.sub("R10-member", r'(?<![\w.>])%s\b' % mname, 'self->' + mname, c)
+    X.check_leftover(c, "StorageSet::splitValues")
+    t2 = '#line %d "%s"\nSS StorageSet_splitValues(const SS *self, int ibegin, int iend)%s\n' % (q.line, X.REPO + "/" + q.rel, c)
+    R.require({"R12g-split-call": 1, "R12g-brace-return": 1, "R12g-local-object": 1})
+    return t1 + t2, {"functions": [{"name": "Data2D<T>::splitData", "file": p.rel, "line": p.line, "loops": 0}, {"name": "StorageSet::splitValues", "file": q.rel, "line": q.line, "loops": 0}],
+                     "rules_fired": {k: v for k, v in R.counts.items() if v}}
+
+SPLITW = r'''
+typedef struct { size_t stride, num_strips; int vec; } D2;
+typedef struct { size_t num_outputs, num_values; int values; } SS;
+static D2 d2_empty(void){ D2 d = {0, 0, 0}; return d; }
+static D2 d2_make(int stride, int strips){ D2 d = {(size_t) stride, (size_t) strips, 0}; return d; }
+static SS ss_make(int outs, int nvals, int vals){ SS s = {(size_t) outs, (size_t) nvals, vals}; return s; }
+static int gm_split(int vec, size_t stride, int b, int e){ return 100000 + vec; }     /* identity of spltVector2D(vec, stride, b, e) (proved in copy.spltVector2D) */
+'''
+SPLITH = r'''
+void h_splitw(void){
+  D2 d; SS s; int a_b = nondet_int(), a_e = nondet_int();
+  d.stride = nondet_size_t(); d.num_strips = nondet_size_t(); d.vec = nondet_int(); s.num_outputs = nondet_size_t(); s.num_values = nondet_size_t(); s.values = nondet_int();
+  __CPROVER_assume(d.stride <= 100 && d.num_strips <= 1000 && s.num_outputs >= 1 && s.num_outputs <= 100 && s.num_values <= 1000 && 0 <= a_b && a_b <= a_e && a_e <= 100 && d.vec > 0 && d.vec < 1000 && s.values > 0 && s.values < 1000);
+  D2 r = Data2D_splitData(&d, a_b, a_e);
+  if (d.stride == 0) __CPROVER_assert(r.num_strips == 0 && r.stride == 0, "A7 splitting an empty Data2D gives an empty object");
+  else {
+    __CPROVER_assert(r.stride == (size_t)(a_e - a_b), "A7 the restricted Data2D has stride iend-ibegin");
+    __CPROVER_assert(r.num_strips == d.num_strips, "A7 the restricted Data2D keeps the number of strips");
+    __CPROVER_assert(r.vec == gm_split(d.vec, d.stride, a_b, a_e), "A7 the restricted Data2D holds the split vector");
+  }
+  SS q = StorageSet_splitValues(&s, a_b, a_e);
+  __CPROVER_assert(q.num_outputs == (size_t)(a_e - a_b) && q.num_values == s.num_values && q.values == gm_split(s.values, s.num_outputs, a_b, a_e), "A7 the restricted StorageSet has iend-ibegin outputs, the same number of values and the split vector");
+  __CPROVER_assert(0, "VACUITY-CANARY");
+}
+'''
+
 def jobs(tier, seed, prop):
     out = []
+    Rw = X.Rules()
+    wt_, winfo_ = emit_split_wrappers(Rw)
+    out.append(Job("copy.splitData", '#include "tsg_shim.h"\nint tsg_exc;\n' + SPLITW + wt_ + SPLITH, "h_splitw", timeout=120,
+                   functions=["%s:%d %s" % (f["file"], f["line"], f["name"]) for f in winfo_["functions"]], info=winfo_,
+                   label="Data2D::splitData / StorageSet::splitValues keep the strip count and hold the split vector (A7)"))
     R = X.Rules()
     enums = "".join(tables.cut_enum(n, R)[0] for n in ("TypeOneDRule", "TypeDepth", "TypeRefinement"))
     preds = u_apiwrap.emit_predicates(R)
